@@ -355,6 +355,39 @@ theorem removePeer_clears (p : Pool) (peer : String) (k : Int) (b : Served)
 theorem pop_height (p : Pool) : (pop p).height = p.height + 1 ∧ (pop p).block p.height = none := by
   simp [pop]
 
+/-! ### S8: votes for something else justify nothing -/
+
+theorem tallyB_zero (b : BlockID) : ∀ (ps : List Int) (ss : List (Option Vote)),
+    (∀ v, some v ∈ ss → v.bid ≠ b) → tallyB b ps ss = 0
+  | [], _, _ => by cases ‹List (Option Vote)› <;> simp [tallyB]
+  | _ :: _, [], _ => by simp [tallyB]
+  | p :: ps, none :: ss, h => by
+    simp only [tallyB]
+    exact tallyB_zero b ps ss (fun v hv => h v (by simp [hv]))
+  | p :: ps, some v :: ss, h => by
+    have hv : ¬ b = v.bid := fun e => h v (by simp) e.symm
+    simp only [tallyB, hv, if_false, Int.zero_add]
+    exact tallyB_zero b ps ss (fun w hw => h w (by simp [hw]))
+
+/-- S8: precommits for nil - or for any other id: another hash, OR the same hash with another part-set
+    header, OR no hash at all - justify no block: if no precommit of the commit names exactly `b`
+    (header hash AND part-set header), `VerifyCommit` for `b` fails, whatever the signatures -/
+theorem precommits_for_something_else_justify_nothing (cfg : VoteSet.Cfg) (sigok : Nat → Vote → Bool)
+    (vals : List Validator) (hpos : ∀ val ∈ vals, 0 ≤ val.power) (b : BlockID) (height : Int) (c : Commit)
+    (hother : ∀ v, some v ∈ c.precommits → v.bid ≠ b) :
+    verifyCommit cfg sigok vals b height c ≠ .ok := by
+  intro h
+  obtain ⟨_, R, _, ht⟩ := verifyCommit_sound cfg sigok vals b height c hpos h
+  rw [tallyB_zero b _ _ hother] at ht
+  have : 0 ≤ total vals := by
+    unfold total
+    have : ∀ (l : List Validator), (∀ v ∈ l, 0 ≤ v.power) → 0 ≤ (l.map (·.power)).sum := by
+      intro l; induction l with
+      | nil => simp
+      | cons a t ih => intro hh; simp; have := hh a (by simp); have := ih (fun v hv => hh v (by simp [hv])); omega
+    exact this vals hpos
+  omega
+
 /-! ### S7: leaving fast sync -/
 
 /-- repaired: every precommit of a verified commit names the validator of its slot -/
